@@ -58,13 +58,18 @@ Stmts(tr, id) ==
               [] tr.w = "if" -> <<[k |-> "if", c |-> Cond, t |-> bare, e |-> None]>>
               [] tr.w = "then" -> <<[k |-> "if", c |-> Cond, t |-> bare, e |-> Block(<<Plain(id * 8 + 4)>>)]>>
               [] tr.w = "else" -> <<[k |-> "if", c |-> Cond, t |-> Block(<<Plain(id * 8 + 4)>>), e |-> bare]>>
-              [] tr.w = "for" -> <<[k |-> "for", init |-> Decl(i, Lit(0)), c |-> Less2(i),
-                                    inc |-> [k |-> "inc", op |-> "+", pre |-> TRUE, n |-> i], b |-> bare]>>
+              [] tr.w = "for" -> IF tr.t.k = "L" /\ tr.t.x = "b" /\ id % 3 = 0
+                                 THEN <<[k |-> "for", init |-> Decl(i, Lit(0)), c |-> None,                        \* for (int i = 0; ; ++i) break;
+                                         inc |-> [k |-> "inc", op |-> "+", pre |-> TRUE, n |-> i], b |-> bare]>>
+                                 ELSE <<[k |-> "for", init |-> Decl(i, Lit(0)), c |-> Less2(i),
+                                         inc |-> [k |-> "inc", op |-> "+", pre |-> TRUE, n |-> i], b |-> bare]>>
               [] tr.w = "while" -> IF tr.t.k = "L" /\ tr.t.x = "b" /\ id % 2 = 1
                                    THEN <<Block(<<Decl(i, Lit(0)), [k |-> "while", c |-> Less2(i), b |-> inner[1]]>>)>>      \* while (c) break;
                                    ELSE <<Block(<<Decl(i, Lit(0)),
                                             [k |-> "while", c |-> Less2(i), b |-> Block(<<IncS(i)>> \o inner)]>>)>>
-              [] tr.w = "do" -> <<Block(<<Decl(i, Lit(0)),
+              [] tr.w = "do" -> IF id % 3 = 1
+                                THEN <<[k |-> "do", b |-> Block(inner), c |-> Lit(0)]>>                                \* do { ... } while (0): runs once
+                                ELSE <<Block(<<Decl(i, Lit(0)),
                                          [k |-> "do", b |-> Block(<<IncS(i)>> \o inner), c |-> Less2(i)]>>)>>
 Program(tr) ==
   [globals |-> <<>>, structs |-> <<>>,
